@@ -7,6 +7,7 @@
 //! the same inputs with the observed answers as Coq cases for the models of
 //! coq/Tx/*.v to recompute.
 mod cap;
+mod recheck;
 mod resolve;
 mod storehist;
 mod time;
@@ -158,6 +159,8 @@ fn main() {
     resolve::stream_block(seed, 500 * k, &mut sink);
     resolve::stream_history(seed, 300 * k, &mut sink);
     storehist::stream_store_history(seed, 60 * k, &mut sink);
+    // sets the process-wide SYSTEM_CELL map: after everything else
+    recheck::stream_recheck(seed, 1500 * k, &mut sink);
 
     if only.is_some() {
         std::process::exit(if sink.replay_failed { 1 } else { 0 });
